@@ -4,7 +4,7 @@ From Coq Require Import List String Bool Arith.
 From Coq Require Import Floats.PrimFloat.
 From PAFCommon Require Import PyFloat.
 From PAFC01 Require Import ModelTree Model Proofs2 Proofs3.
-From PAFC08 Require Import Model Lib Proofs1 Proofs2 Proofs3 Proofs4 Proofs5 Proofs6 Proofs7 Proofs8.
+From PAFC08 Require Import Model Lib Proofs1 Proofs2 Proofs3 Proofs4 Proofs5 Proofs6 Proofs7 Proofs8 Proofs9.
 Import ListNotations.
 Local Open Scope string_scope.
 Local Open Scope list_scope.
@@ -73,8 +73,8 @@ Definition w_zero_tuple : fsnode :=
 
 Lemma zero_prior_tuple_refuted :
   exists n n', fdict n = Ok n' /\
-    ival_eqb (inst_from_paths float fbin (ftree n') [(["h"; "a"], 0.5%float)])
-             (inst_from_paths float fbin (ftree n) [(["h"; "a"], 0.5%float)]) = false.
+    ival_eqb (inst_from_paths float fbin funop (ftree n') [(["h"; "a"], 0.5%float)])
+             (inst_from_paths float fbin funop (ftree n) [(["h"; "a"], 0.5%float)]) = false.
 Proof. exists w_zero_tuple. eexists. split; [vm_compute; reflexivity|vm_compute; reflexivity]. Qed.
 
 Definition w_zero_extra : fsnode :=
@@ -178,8 +178,8 @@ Proof. split; vm_compute; reflexivity. Qed.
 Lemma zero_prior_next :
   plain_cf float cfg_fixed w_zero_tuple = true /\ plain_cf float cfg_fixed w_zero_extra = true /\
   (exists n', dict_rt float ffalsy cfg_fixed w_zero_tuple = Ok n' /\
-     ival_eqb (inst_from_paths float fbin (ftree n') [(["h"; "a"], 0.5%float)])
-              (inst_from_paths float fbin (ftree w_zero_tuple) [(["h"; "a"], 0.5%float)]) = true) /\
+     ival_eqb (inst_from_paths float fbin funop (ftree n') [(["h"; "a"], 0.5%float)])
+              (inst_from_paths float fbin funop (ftree w_zero_tuple) [(["h"; "a"], 0.5%float)]) = true) /\
   (exists n', dict_rt float ffalsy cfg_fixed w_zero_extra = Ok n' /\
      snode_eqb (smap float (forget_f float) (norm float n')) (smap float (forget_f float) (norm float w_zero_extra)) = true).
 Proof.
@@ -192,3 +192,38 @@ Qed.
 Example exact_stays_instance :
   as_instance float cfg_fixed (SNode (KModel "G2" ["a"; "b"]) [("a", SConst 1%float); ("b", SConst 2%float)] []) = true.
 Proof. vm_compute. reflexivity. Qed.
+
+(* ---------- the unary node: Model(G2, a = abs(p0 - p1), b = -p1) with p0 - p1 = SumPrior(p0, NegativePrior(p1)) and an
+   assertion -p1 < p0 on the model.  All three forms succeed on the repaired code; the unary names ("self", "p1")
+   survive, the binary names become left_ / right_ in the dict and database forms ---------- *)
+Definition w_unary : fsnode :=
+  g2 (SNode (KUn UAbs) [("self", SNode (KBin OAdd) [("p0", SPrior 0 (uni (Some 0)));
+                                                      ("other", SNode (KUn UNeg) [("p1", SPrior 1 (uni (Some 1)))] [])] [])] [])
+     (SNode (KUn UNeg) [("p1", SPrior 1 (uni (Some 1)))] [])
+     [ALt (EUn UNeg (EPrior 1 (uni (Some 1)))) (EPrior 0 (uni (Some 0)))].
+
+Example w_unary_tree :
+  map fst (walk float (ftree w_unary)) = [["a"; "self"; "p0"]; ["a"; "self"; "other"; "p1"]; ["b"; "p1"]].
+Proof. vm_compute. reflexivity. Qed.
+
+Example w_unary_round_trips :
+  (exists n', rt float ffalsy cfg_fixed FPickle w_unary = Ok n' /\ map fst (walk float (ftree n')) = map fst (walk float (ftree w_unary))) /\
+  (exists n', rt float ffalsy cfg_fixed FDb w_unary = Ok n' /\
+              map fst (walk float (ftree n')) = [["a"; "self"; "left_"]; ["a"; "self"; "right_"; "p1"]; ["b"; "p1"]]) /\
+  (exists n', rt float ffalsy cfg_fixed FDict w_unary = Ok n' /\
+              map fst (walk float (ftree n')) = [["a"; "self"; "left_"]; ["a"; "self"; "right_"; "p1"]; ["b"; "p1"]] /\
+              prior_count float (ftree n') = 2).
+Proof. repeat split; eexists; vm_compute; repeat split; reflexivity. Qed.
+
+(* a model whose arithmetic is unary only is inside the guards of C08_round_trip_partial for every form *)
+Definition w_unary_only : fsnode :=
+  g2 (SNode (KUn UAbs) [("self", SNode (KUn UNeg) [("p0", SPrior 0 (uni (Some 0)))] [])] [])
+     (SNode (KUn UNeg) [("p1", SPrior 1 (uni (Some 1)))] []) [ALt (EUn UNeg (EPrior 1 (uni (Some 1)))) (EPrior 0 (uni (Some 0)))].
+Example w_unary_only_guards :
+  guard float ffalsy cfg_fixed FDict w_unary_only = true /\ guard float ffalsy cfg_fixed FDb w_unary_only = true /\
+  guard float ffalsy cfg_fixed FPickle w_unary_only = true.
+Proof. vm_compute. repeat split; reflexivity. Qed.
+Example w_unary_only_names_kept :
+  exists n', rt float ffalsy cfg_fixed FDict w_unary_only = Ok n' /\
+             map fst (walk float (ftree n')) = [["a"; "self"; "p0"]; ["b"; "p1"]].
+Proof. eexists. vm_compute. split; reflexivity. Qed.
